@@ -435,6 +435,9 @@ func runC15(c *Ctx) error {
 			}
 			if x == "free" {
 				// a replay of a free-running case runs a new race on a history of the same length
+				if len(h.Subs) > 0 && h.Subs[len(h.Subs)-1].ID >= 20000 || len(h.Subs) > 1 && h.Subs[len(h.Subs)-2].ID >= 20000 {
+					return runC15FreeW(c, 3, 24)
+				}
 				return runC15Free(c, 3, len(h.Subs)*7/8)
 			}
 		}
@@ -572,5 +575,8 @@ func runC15(c *Ctx) error {
 		return err
 	}
 	// free-running readers (linearizability against the model), authentication on, see c15_free.go
-	return runC15Free(c, c.Pick(2, 10), c.Pick(140, 400))
+	if err := runC15Free(c, c.Pick(2, 10), c.Pick(140, 400)); err != nil {
+		return err
+	}
+	return runC15FreeW(c, c.Pick(2, 8), c.Pick(36, 60))
 }
